@@ -372,8 +372,6 @@ void janet_bytecode_movopt(JanetFuncDef *def) {
                 break;
                 /* Write A, Read E */
                 case JOP_MOVE_NEAR:
-                /* Write A, Read B */
-                case JOP_GET_INDEX:
                 /* Write A */
                 case JOP_LOAD_INTEGER:
                 case JOP_LOAD_CONSTANT:
